@@ -6,7 +6,7 @@ import lib
 DEFAULT_SWITCHES = {
     "CheckOrder": '"flag-table"', "ClearLoserRetries": "TRUE", "InsertOrder": '"value-key"', "SnapshotRecheck": "TRUE",
     "CopyLocksBuckets": "TRUE", "PublishBeforeFlagClear": "TRUE", "SizeTarget": '"modified"', "CopyRecounts": "TRUE",
-    "FnBeforeRetry": "FALSE", "BroadcastOnResizeEnd": "TRUE", "UnlockOnNewerTable": "TRUE", "ZeroOnAbsentDelete": "TRUE",
+    "FnBeforeRetry": "FALSE", "BroadcastOnResizeEnd": "TRUE", "UnlockOnNewerTable": "TRUE", "ZeroOnAbsentDelete": "TRUE", "RangeSnapshotsTable": "TRUE",
 }
 
 # alternative value of each switch and the families expected to refute it (vacuity guard + witness generator)
@@ -24,6 +24,7 @@ ALTERNATIVES = {
     "FnBeforeRetry=TRUE": ({"FnBeforeRetry": "TRUE"}, ["S11-racers-grow"]),
     "BroadcastOnResizeEnd=FALSE": ({"BroadcastOnResizeEnd": "FALSE"}, ["S8-two-growers", "S4-grow"]),
     "UnlockOnNewerTable=FALSE": ({"UnlockOnNewerTable": "FALSE"}, ["S4-grow", "S8-two-growers"]),
+    "RangeSnapshotsTable=FALSE": ({"RangeSnapshotsTable": "FALSE"}, ["S15-range-grow", "S16-range-clear"]),
     "ZeroOnAbsentDelete=FALSE": ({"ZeroOnAbsentDelete": "FALSE"}, ["S13-compute-delete-absent"]),
 }
 
@@ -72,6 +73,12 @@ def families():
         {"t1": [C("Compute", "k1", "a", "toggle")], "t2": [C("Compute", "k1", "b", "toggle")], "t3": [C("Compute", "k1", "c", "setifabsent"), C("Load", "k1")]})
     fam("S13-compute-delete-absent", ["k1", "k2", "k3"], {"k1": 0, "k2": 0, "k3": 0}, {"k1": 1, "k2": 2, "k3": 3}, ["k1", "k2"],
         {"t1": [C("Compute", "k3", "a", "delret")], "t2": [C("Load", "k3")]})
+    fam("S14-range-writers", ["k1", "k2", "k3"], {"k1": 0, "k2": 0, "k3": 1}, {"k1": 1, "k2": 2, "k3": 1}, ["k1", "k3"],
+        {"t1": [C("Range")], "t2": [C("Delete", "k1"), C("Store", "k1", "a")], "t3": [C("Store", "k2", "b")]}, nb0=2, minnb=2)
+    fam("S15-range-grow", ["k1", "k2", "k3"], {"k1": 0, "k2": 1, "k3": 2}, {"k1": 1, "k2": 1, "k3": 1}, ["k1", "k2"],
+        {"t1": [C("Range")], "t2": [C("Store", "k3", "a")], "t3": [C("Delete", "k1")]}, grow=g1)
+    fam("S16-range-clear", ["k1", "k2"], {"k1": 0, "k2": 1}, {"k1": 1, "k2": 1}, ["k1", "k2"],
+        {"t1": [C("Range")], "t2": [C("Clear"), C("Store", "k1", "a")]}, nb0=2, minnb=2)
     return F
 
 
@@ -117,7 +124,7 @@ def run_family(name, variant, switches=None, timeout=1800, workers=None):
     """Exhaustive TLC run of one family; returns lib.run_tlc result plus 'violated' (invariant name or 'deadlock' or None)."""
     d = lib.mktemp("verif-clht-")
     import shutil
-    for m in ("CLHT", "MapSem"):
+    for m in ("CLHT", "MapSem"):  # SequencesExt comes from the CommunityModules jar
         shutil.copy(os.path.join(lib.SPECS, m + ".tla"), d)
     mod = write_model(d, name, variant, switches)
     r = lib.run_tlc(mod, cfg=None, workers=workers or lib.NCPU, timeout=timeout, workdir=d, staged=True)
